@@ -134,3 +134,13 @@ Definition chk_hybridhist : P (list Z) :=
                               hy_txt := if ht then Some binit else None;
                               hy_meta := if hm then Some minit else None; hy_info := [] |};
                yh_i := 0; yh_weak := 0 |} ops).
+
+(** 501: the hybrid index over an HNSW vector index in HNSW's exact regime (at most 2M vectors, ef at
+    least that) against the hybrid index over a flat index, same history, same searches: number of
+    compared searches, how many answered differently, result of reloading the HNSW hybrid into a fresh
+    one (0 ok), how many answers differed after the reload.  C12's exactness clause and C05's / C07's
+    statements do not depend on which exact vector index is plugged in. *)
+Definition chk_hnsw_hybrid : P (list Z) :=
+  n <- pz ;; diffs <- pz ;; reload <- pz ;; rdiffs <- pz ;;
+  let ok := (diffs =? 0) && (reload =? 0) && (rdiffs =? 0) in
+  ret (verdict ok ok [diffs; reload; rdiffs]).
